@@ -286,8 +286,9 @@ def run_T(cx, job):
 
 def run_L(cx, job):
     outer_max, inner_max = BOUNDS[job['tier']]['lists']
+    # ('', 0): the empty string as an entry of an inner list, too
     labels = [('role', 0), ('path', 1), ('lit', 2), ('rule', 3), ('@', 0),
-              ('!', 0)]
+              ('!', 0), ('', 0)]
     kinds = ('role', 'path', 'lit', 'rule')
 
     def txt(l):
